@@ -381,8 +381,17 @@ class Receiver:
                 # We're done, so now we need to check
                 # whether task has returned an error.
                 message = current_message.result()
-                current_message = asyncio.create_task(iterator.__anext__())  # type: ignore
                 fetched_tasks += 1
+                # We start fetching the next message only if we are going
+                # to process it. Otherwise it would be taken from the broker
+                # and dropped when max_tasks_to_execute is reached.
+                if not (
+                    self.max_tasks_to_execute
+                    and fetched_tasks >= self.max_tasks_to_execute
+                ):
+                    current_message = asyncio.create_task(
+                        iterator.__anext__(),  # type: ignore
+                    )
                 await queue.put(message)
             except (asyncio.CancelledError, StopAsyncIteration):
                 break
